@@ -147,23 +147,51 @@ def list_changed(L, ids, snap):
     return None
 
 
-def locc_value(L, probs, dims, rng, tries=6):
-    """Value achieved by an explicit one-way LOCC (product) measurement: A measures in a basis,
-    B in a basis chosen by A's outcome, decide by maximum posterior."""
+def _pgm(sigmas):
+    """Pretty-good measurement for unnormalised operators on a small system (own code): a valid POVM."""
+    d = sigmas[0].shape[0]
+    tot = sum(sigmas)
+    w, v = np.linalg.eigh((tot + tot.conj().T) / 2)
+    keep = w > 1e-12 * max(w.max(), 1e-300)
+    inv_sqrt = (v[:, keep] / np.sqrt(w[keep])) @ v[:, keep].conj().T
+    ms = [inv_sqrt @ sg @ inv_sqrt for sg in sigmas]
+    rest = np.eye(d) - v[:, keep] @ v[:, keep].conj().T
+    ms[0] = ms[0] + rest  # complete the measurement outside the support
+    return ms
+
+
+def locc_value(L, probs, dims, rng, tries=10):
+    """Value achieved by an explicit one-way LOCC (hence separable, hence PPT) measurement: one party measures in
+    an orthonormal basis, the other applies the pretty-good measurement of the conditional ensemble belonging to
+    the announced outcome.  Both directions and several bases; every value is attained by a valid measurement."""
     rhos = [models.to_dm(x) for x in L]
     n = len(rhos)
     p = probs if probs is not None else [1.0 / n] * n
     da, db = dims
     best = 0.0
-    for _ in range(tries):
-        ua = np.linalg.qr(rng.standard_normal((da, da)) + 1j * rng.standard_normal((da, da)))[0]
-        tot = 0.0
-        for i in range(da):
-            ub = np.linalg.qr(rng.standard_normal((db, db)) + 1j * rng.standard_normal((db, db)))[0]
-            for j in range(db):
-                v = np.kron(ua[:, i], ub[:, j])
-                tot += max(p[k] * float(np.real(v.conj() @ rhos[k] @ v)) for k in range(n))
-        best = max(best, tot)
+    for direction in (0, 1):
+        d1, d2 = (da, db) if direction == 0 else (db, da)
+        for t in range(tries):
+            if t == 0:
+                u = np.eye(d1, dtype=complex)
+            else:
+                u = np.linalg.qr(rng.standard_normal((d1, d1)) + 1j * rng.standard_normal((d1, d1)))[0]
+            tot = 0.0
+            for i in range(d1):
+                a = u[:, i]
+                sig = []
+                for k in range(n):
+                    r4 = rhos[k].reshape(da, db, da, db)
+                    if direction == 0:
+                        s_k = np.einsum("i,ibjc,j->bc", a.conj(), r4, a)
+                    else:
+                        s_k = np.einsum("i,bicj,j->bc", a.conj(), r4, a)
+                    sig.append(p[k] * s_k)
+                if sum(float(np.real(np.trace(x))) for x in sig) < 1e-14:
+                    continue
+                ms = _pgm(sig)
+                tot += sum(float(np.real(np.trace(sg @ m))) for sg, m in zip(sig, ms))
+            best = max(best, tot)
     return best
 
 
